@@ -271,6 +271,14 @@ def element_parsing(
             else:
                 if isinstance(element, spt.Measure):
                     current_tl_pos = measure_mapping[element.number]
+                elif isinstance(element, spt.Clef) and not any(
+                    clef.staff == element.staff
+                    for clef in part.iter_all(
+                        spt.Clef, current_tl_pos, current_tl_pos + 1
+                    )
+                ):
+                    # a clef belongs to its staff: keep the clefs of the other staves
+                    part.add(element, start=current_tl_pos)
 
     return line2pos
 
